@@ -17,7 +17,11 @@ def g_alpide(F, X):
     ab = X.fn_body(src, "add_fatal_lanes")
     dd = None
     if ab:
-        dd = bool(re.search(r"\bcontains\s*\(", ab)) or bool(re.search(r"\bdedup\s*\(", ab))
+        # a lane is listed once: membership test before the push, or sort + dedup (Vec::dedup alone only drops CONSECUTIVE repeats)
+        guarded_push = bool(re.search(r"if\s*!\s*\w+\s*\.\s*contains\s*\(\s*&?\s*\w+\s*\)\s*\{[^{}]*\.\s*push\s*\(", ab))
+        sorted_dedup = bool(re.search(r"\.\s*sort(_unstable)?\s*\(\s*\)\s*;[^{}]*\.\s*dedup\s*\(\s*\)", ab, flags=re.S))
+        other_insert = bool(re.search(r"\.\s*(extend|append|insert|extend_from_slice)\s*\(", ab))
+        dd = (guarded_push and not other_insert) or sorted_dedup
     F.add("fatal_lanes_deduplicated", "bool", dd, True, "readout_frame.rs add_fatal_lanes: a lane is listed once")
 
 
